@@ -10,6 +10,10 @@ EXTENDS ZPlace, TLC
 MCNodes == {1, 2, 3, 4}
 MCDC    == <<1, 2, 1, 2>>          \* two data centres, two nodes each
 
+\* second instance (thorough tier): three data centres, two nodes each
+MCNodes6 == {1, 2, 3, 4, 5, 6}
+MCDC6    == <<1, 2, 3, 1, 2, 3>>
+
 InjSeqs(S, k) == {s \in [1..k -> S] : \A i, j \in 1..k : i # j => s[i] # s[j]}
 Candidates(c) == [1..c.P -> InjSeqs(c.live, c.R)]
 
